@@ -42,7 +42,21 @@ func tierDeadlines(st *fakemc.Store, key string, chunkedTier bool) map[string]ui
 }
 
 // ttlCheck: after every command every tier that holds the key holds it with the model's deadline.
-func ttlCheck(w *World, m *refmodel.Model, i int, op wire.Op) (string, string) {
+func ttlCheck(w *World, m *refmodel.Model, i int, op wire.Op, hist []wire.Op) (string, string) {
+	// which command last set the key's expiry (part of the violation signature, so that two
+	// different ways of losing an expiry are told apart)
+	via := "none"
+	for _, h := range hist[:len(hist)-1] {
+		switch h.Kind {
+		case "set", "add", "replace", "touch", "gat":
+			via = h.Kind
+		}
+	}
+	if op.Kind != "append" && op.Kind != "prepend" {
+		via = ""
+	} else {
+		via = "/expiry-last-set-by-" + via
+	}
 	for _, key := range []string{"a"} {
 		e, live := m.Live(key)
 		tiers := []struct {
@@ -103,7 +117,7 @@ func ttlCheck(w *World, m *refmodel.Model, i int, op wire.Op) (string, string) {
 					if strings.HasSuffix(k, ".field") {
 						what = "metadata expiry field"
 					}
-					return "wrong-expiry/" + t.name, fmt.Sprintf("%s %s %q expires %s, the client last asked for %s", t.name, what, k, rel(d), rel(e.Deadline))
+					return "wrong-expiry/" + t.name + via, fmt.Sprintf("%s %s %q expires %s, the client last asked for %s", t.name, what, k, rel(d), rel(e.Deadline))
 				}
 			}
 		}
